@@ -181,6 +181,8 @@ def shard(sh):
             allreq = [(r, False) for r in reqs] + [(r, True) for r in PROXY_REQUESTS]
             for base, proxy in allreq[sh["sub"]::sh["of"]]:
                 for cutp in range(0, len(base) + 1):
+                    if run.enough():
+                        break
                     pre = base[:cutp]
                     for kind in e2.KINDS:
                         modes = ["halfclose"]
@@ -195,6 +197,8 @@ def shard(sh):
             run.extra_cov["prefix_enumeration_complete"] = True
         elif sh["kind"] == "hostile":
             for k in range(sh["n"]):
+                if run.enough():
+                    break
                 s = gen.gen_stream(rng, hostile=rng.choice([0.5, 0.9]), sentinel=rng.random() < 0.5)
                 msgs = ref_http.walk(s, "drop")
                 complete_reject = bool(msgs) and msgs[-1].status == "reject"
@@ -216,6 +220,8 @@ def shard(sh):
         else:
             fx = [d for _, d in gen.fixture_streams(common.REPO)]
             for k in range(sh["n"]):
+                if run.enough():
+                    break
                 r = rng.random()
                 if r < 0.3:
                     s = bytes(rng.randrange(256) for _ in range(rng.choice([1, 5, 50, 300, 3000])))
